@@ -213,7 +213,9 @@ func c20gTemplates(r *common.Rand, uploadID string) []c20gReq {
 	}
 }
 
-var c20gJunk = []string{"", "-1", "0", "99999999999999999999", "abc", "1e9", "%00", "null", "true", "1.5", "-9223372036854775808", " 5", "5 ", "0x10"}
+// numeric junk: values between ~1e6 and 2^62 are deliberately absent (a defect that allocates by such a number would
+// exhaust the sandbox's memory instead of being observed); the extremes are there.
+var c20gJunk = []string{"", "-1", "0", "99999999999999999999", "9223372036854775807", "4611686018427387904", "9223372036854775808", "65536", "abc", "1e9", "%00", "null", "true", "1.5", "-9223372036854775808", " 5", "5 ", "0x10"}
 
 func c20gMutateQuery(r *common.Rand, target string) string {
 	path, query, _ := strings.Cut(target, "?")
@@ -529,13 +531,88 @@ func runC20G(run *common.Run) {
 		return
 	}
 	defer os.RemoveAll(scratch)
-	if run.WantSub("fuzz") {
+	if run.WantSub("sweep") {
+		c20gSweep(run, scratch)
+	}
+	if run.WantSub("fuzz") && !run.TooMany() {
 		c20gFuzz(run, scratch)
 	}
 	if run.WantSub("mix") && !run.TooMany() {
 		c20gMix(run, scratch)
 	}
 	run.ScanRaceLogs("github.com/fullstorydev/emulators/storage")
+}
+
+var c20gParams = []string{"ifGenerationMatch", "ifGenerationNotMatch", "ifMetagenerationMatch", "ifMetagenerationNotMatch", "maxResults", "pageToken", "upload_id", "uploadType", "name", "alt", "prefix", "delimiter"}
+
+// c20gSweep: complete enumeration of (endpoint template x query parameter x junk value): the parameter is set to the
+// junk value (replacing an existing one). Every request is followed by the panic / well-formedness monitors; the
+// probe runs after each template's block.
+func c20gSweep(run *common.Run, scratch string) {
+	var wg sync.WaitGroup
+	for ki, kind := range drive.Stores {
+		wg.Add(1)
+		go func(ki int, kind string) {
+			defer wg.Done()
+			ch, msg := c20gStart(fmt.Sprintf("sw%d", ki), kind, scratch)
+			if ch == nil {
+				run.Violation("sweep", ki, "cannot start child: "+msg, nil)
+				return
+			}
+			defer func() { ch.stop() }()
+			if m := ch.fixture(); m != "" {
+				run.Violation("sweep", ki, m, nil)
+				return
+			}
+			_, uploadID, _ := ch.cl.ResumableInit(c20gB, []byte(`{"name":"res-live.bin"}`), nil, "")
+			tmpls := c20gTemplates(nil, uploadID)
+			n := 0
+			for ti, t := range tmpls {
+				for pi, param := range c20gParams {
+					for ji, junk := range c20gJunk {
+						idx := ((ki*100+ti)*100+pi)*100 + ji
+						if !run.Want("sweep", idx) || run.TooMany() {
+							continue
+						}
+						q := t
+						path, query, _ := strings.Cut(t.Target, "?")
+						var params []string
+						for _, p := range strings.Split(query, "&") {
+							if p != "" && !strings.HasPrefix(p, param+"=") {
+								params = append(params, p)
+							}
+						}
+						params = append(params, param+"="+junk)
+						q.Target = path + "?" + strings.Join(params, "&")
+						rsp := ch.send(q)
+						n++
+						bad := ""
+						if !ch.alive() {
+							bad = "the emulator process died: " + ch.newPanics()
+						} else if p := ch.newPanics(); p != "" {
+							bad = "handler panic: " + clipN(p, 900)
+						} else if m := c20gWellFormed(q, rsp); m != "" {
+							bad = m
+						}
+						if bad != "" {
+							run.Violation("sweep", idx, bad+" | store="+kind+" case="+clipN(q.String(), 800), map[string]any{"store": kind, "case": q.String()})
+							ch.stop()
+							ch, msg = c20gStart(fmt.Sprintf("sw%d", ki), kind, scratch)
+							if ch == nil || ch.fixture() != "" {
+								return
+							}
+						}
+						run.Case(common.Hash64("sweep", kind, q.String()), rsp.status >= 400)
+					}
+				}
+				if bad := ch.probe(ti); bad != "" {
+					run.Violation("sweep", ki*100+ti, bad+" | store="+kind+" after the parameter sweep of "+t.Method+" "+t.Target, nil)
+				}
+			}
+			run.Count("parameter_sweep_requests", int64(n))
+		}(ki, kind)
+	}
+	wg.Wait()
 }
 
 func c20gFuzz(run *common.Run, scratch string) {
